@@ -346,24 +346,45 @@ func caseTimer() {
 		now0 = now0.AddDate(-100, 0, 0)
 	}
 	wd := rnd.Intn(7)
+	if rnd.Intn(4) == 0 {
+		// opened within the last minute before the recorded end: the timer's
+		// delay is the one-minute minimum, it fires up to a minute late
+		y, m, d := now0.Date()
+		now0 = time.Date(y, m, d, 23, 59, rnd.Intn(60), rnd.Intn(1e9), time.UTC)
+		wd = (int(now0.Weekday()) + 1) % 7
+		out.Note("timer-minimum-delay")
+	}
 	dir := setupDir([]byte(fmt.Sprintf("%d\n", wd)), false)
 	defer os.RemoveAll(dir)
 	now := now0
 	counter.CounterTime = func() time.Time { return now }
 	vtime.ResetAll()
+	// the wall clock rotate() reads for the timer's delay is the counter clock
+	vtime.Clock = func() time.Time { return now }
+	defer func() { vtime.Clock = nil }()
 	f := counter.VerifNewFile()
 	f.Rotate()
 	c := f.NewCounter("c")
 	stages := 2 + rnd.Intn(3)
-	fields := []string{"timer", I(now0.Unix()), I(int64(wd)), I(int64(stages))}
+	fields := []string{"timer", I(now0.Unix()), I(int64(now0.Nanosecond())), I(int64(wd)), I(int64(stages))}
+	delayOf := func(pend []*vtime.Timer) int64 {
+		if len(pend) == 0 {
+			return -1
+		}
+		return int64(pend[0].D)
+	}
 	for k := 0; k < stages; k++ {
 		b, e := f.Span()
 		n := 1 + rnd.Intn(5)
 		c.Add(int64(n))
 		pend := vtime.Pending()
-		// the timer fires at the recorded end, or a little later
-		fire := e.Add(Pick(rnd, []time.Duration{0, time.Nanosecond, time.Second, time.Hour, 30 * time.Hour}))
-		fields = append(fields, I(int64(len(pend))), I(b.Unix()), I(e.Unix()), I(int64(n)), I(fire.Unix()))
+		// the runtime fires the timer when it is due, or a little later
+		fire := e
+		if len(pend) > 0 {
+			fire = now.Add(pend[0].D)
+		}
+		fire = fire.Add(Pick(rnd, []time.Duration{0, 0, time.Nanosecond, time.Second, time.Hour, 30 * time.Hour}))
+		fields = append(fields, I(int64(len(pend))), I(delayOf(pend)), I(b.Unix()), I(e.Unix()), I(int64(n)), I(fire.Unix()), I(int64(fire.Nanosecond())))
 		now = fire
 		for _, t := range pend {
 			vtime.Fire(t)
@@ -372,7 +393,8 @@ func caseTimer() {
 	b, e := f.Span()
 	n := 1 + rnd.Intn(5)
 	c.Add(int64(n))
-	fields = append(fields, I(int64(len(vtime.Pending()))), I(b.Unix()), I(e.Unix()), I(int64(n)))
+	pend := vtime.Pending()
+	fields = append(fields, I(int64(len(pend))), I(delayOf(pend)), I(b.Unix()), I(e.Unix()), I(int64(n)))
 	f.Close()
 	vtime.ResetAll()
 	got := counts(telemetry.Default.LocalDir())
